@@ -118,16 +118,22 @@ StartRecv(s, style, cap) ==
 \* a receive completes: exactly the head datagram, cut to the buffers, whole datagram released
 \* the operation that completes: the outstanding one, or one that was aborted after it had
 \* already completed
+\* (when a receive was superseded by a new one at a moment at which it could already complete, the completion that
+\* follows belongs to the superseded one and the new one stays outstanding: both attributions are allowed)
 CurOp(s) == IF us[s].op # None THEN us[s].op ELSE Head(us[s].aborting)
 HasOp(s) == us[s].op # None \/ us[s].aborting # <<>>
+OldRecvs(s) == {i \in 1..Len(us[s].aborting) : us[s].aborting[i].style # "waitw"}
+FirstOld(s) == CHOOSE i \in OldRecvs(s) : \A j \in OldRecvs(s) : i <= j
+DropAt(q, i) == SubSeq(q, 1, i - 1) \o SubSeq(q, i + 1, Len(q))
 Recv(s, id, n, from) ==
     /\ us[s].open /\ us[s].rcvq # <<>> /\ Head(us[s].rcvq) = id /\ HasOp(s)
-    /\ n = Min(dg[id].size, CurOp(s).cap)
     /\ from = dg[id].from
     /\ dg' = [i \in DOMAIN dg \ {id} |-> dg[i]]
-    /\ us' = [us EXCEPT ![s].rcvq = Tail(@), ![s].acct = @ - dg[id].size,
-                        ![s].op = None,
-                        ![s].aborting = IF us[s].op # None THEN @ ELSE Tail(@)]
+    /\ \/ /\ us[s].op # None /\ n = Min(dg[id].size, us[s].op.cap)
+          /\ us' = [us EXCEPT ![s].rcvq = Tail(@), ![s].acct = @ - dg[id].size, ![s].op = None]
+       \/ /\ OldRecvs(s) # {} /\ n = Min(dg[id].size, us[s].aborting[FirstOld(s)].cap)
+          /\ us' = [us EXCEPT ![s].rcvq = Tail(@), ![s].acct = @ - dg[id].size,
+                              ![s].aborting = DropAt(@, FirstOld(s))]
     /\ UNCHANGED <<now, topo, order>>
 
 \* a receive that was aborted after it had completed reports the datagram it had taken
@@ -142,8 +148,10 @@ ReadyLate(s) == /\ us[s].aborting # <<>> /\ us[s].op = None /\ Head(us[s].aborti
                 /\ us' = [us EXCEPT ![s].aborting = Tail(@)]
                 /\ UNCHANGED <<now, topo, dg, order>>
 \* readiness notification (async_wait(wait_read)): something is queued; nothing is consumed
-Ready(s) == /\ us[s].open /\ us[s].rcvq # <<>> /\ HasOp(s) /\ CurOp(s).style = "wait"
-            /\ us' = [us EXCEPT ![s].op = None, ![s].aborting = IF us[s].op # None THEN @ ELSE Tail(@)]
+Ready(s) == /\ us[s].open /\ us[s].rcvq # <<>> /\ HasOp(s)
+            /\ \/ /\ us[s].op # None /\ us[s].op.style = "wait" /\ us' = [us EXCEPT ![s].op = None]
+               \/ /\ OldRecvs(s) # {} /\ us[s].aborting[FirstOld(s)].style = "wait"
+                  /\ us' = [us EXCEPT ![s].aborting = DropAt(@, FirstOld(s))]
             /\ UNCHANGED <<now, topo, dg, order>>
 
 WaitRec == [style |-> "waitw", cap |-> 0]
